@@ -27,6 +27,8 @@ import (
 // scrubbed so the log stays comparable between runs).
 var uuidRE = regexp.MustCompile(`[0-9a-f]{8}-[0-9a-f]{4}-[0-9a-f]{4}-[0-9a-f]{4}-[0-9a-f]{12}`)
 
+var runDirRE = regexp.MustCompile(`/[^ ]*/run[0-9]+`)
+
 type simLogger struct {
 	c  *simrt.Ctx
 	id string
@@ -42,11 +44,7 @@ func (l *simLogger) Printf(format string, v ...interface{}) {
 	if i := strings.Index(msg, "0x"); i >= 0 {
 		msg = msg[:i] + "0x?"
 	}
-	if i := strings.Index(msg, "/run"); i >= 0 {
-		if j := strings.Index(msg[i:], "/node"); j >= 0 {
-			msg = msg[:i] + msg[i+j:]
-		}
-	}
+	msg = runDirRE.ReplaceAllString(msg, "") // the run's scratch directory has a random name
 	l.c.Logf("LOG %s %s", l.id, msg)
 }
 func (l *simLogger) Debugf(format string, v ...interface{}) {}
